@@ -55,9 +55,9 @@ macro_rules! barrier_harness {
             fn $name() {
                 // $kind: 0 SetIndex, 1 SetField, 2 ArrayPush
                 let instr = match $kind {
-                    0 => Instr::SetIndex(enc(T, 0), enc(T, 0)),
-                    1 => Instr::SetField(0, enc(T, 0)),
-                    _ => Instr::ArrayPush(enc(T, 0), enc(T, 0)),
+                    0 => norm(Instr::SetIndex(enc(T, 0), enc(T, 0))),
+                    1 => norm(Instr::SetField(0, enc(T, 0))),
+                    _ => norm(Instr::ArrayPush(enc(T, 0), enc(T, 0))),
                 };
                 let mut t = mk_thread(vec![instr, Instr::Stop], vec![], vec![]);
                 let child = mk_string(&mut t, [b'x', 0, 0], 1);
@@ -100,7 +100,7 @@ macro_rules! alloc_colour_harness {
         vm_harness! {
             #[kani::unwind(6)]
             fn $name() {
-                let mut t = mk_thread(vec![Instr::ConstructStruct(1), Instr::Stop], vec![], vec![]);
+                let mut t = mk_thread(vec![norm(Instr::ConstructStruct(1)), Instr::Stop], vec![], vec![]);
                 let child = mk_string(&mut t, [b'x', 0, 0], 1);
                 let phase: u8 = $phase;
                 t.gc_state = match phase { 0 => GcState::Idle, 1 => GcState::Marking, _ => GcState::Sweeping { index: 0 } };
